@@ -53,7 +53,11 @@ def _recover(draw):
     else:
         auto = math.exp(draw(st.floats(0.0, math.log(min(5000.0, cap)))))
     blank = auto > 0 and draw(st.booleans()) and len(lad) < 10
-    return dict(arm='recover', m=m, b=b, auto=auto, mef=([0.0] if blank else []) + lad)
+    # callers hand over float arrays, integer arrays (manufacturer values are whole numbers) or lists
+    container = draw(st.sampled_from(['float_array', 'float_array', 'int_array', 'list']))
+    if container == 'int_array':
+        lad = [float(round(v)) for v in lad]
+    return dict(arm='recover', m=m, b=b, auto=auto, mef=([0.0] if blank else []) + lad, container=container)
 
 
 @st.composite
@@ -125,7 +129,15 @@ def check(case, obs):
     else:
         rfi, mef = case['rfi'], case['mef']
         obs.nontrivial = True
-    out = call(FlowCal.mef.fit_beads_autofluorescence, np.array(rfi), np.array(mef))
+    container = case.get('container', 'float_array')
+    obs.label('container:' + container)
+    if container == 'int_array':
+        mef_arg = np.array([int(v) for v in mef], dtype=np.int64)
+    elif container == 'list':
+        mef_arg = list(mef)
+    else:
+        mef_arg = np.array(mef)
+    out = call(FlowCal.mef.fit_beads_autofluorescence, list(rfi) if container == 'list' else np.array(rfi), mef_arg)
     if not obs.claim('fits', not raised(out), lambda: 'fit raised %r' % (out,)):
         return
     _structure(out, rfi, obs)
